@@ -22,6 +22,17 @@ Theorem C09_det :
 Proof. exact det_declared. Qed.
 Print Assumptions C09_det.
 
+(* the listings the CLI prints (--list / --list-all, plain and --json) are the function [listed] of the merged table
+   (Merge/Spec.v: keys ordered root-tasks-first then bytewise - sort.AlphaNumericWithRootTasksFirst -, internal
+   tasks dropped, for --list also tasks without desc; the plain listing prints Task, the JSON listing label-or-Task,
+   entry i for task i); monitor R_listing checks that on every load.  Hence: same set and order on every load *)
+Theorem C09_listing_det :
+  forall v g pi pi' s s' b, v_declared v = true -> v_inplace v = false -> valid_pi g pi -> valid_pi g pi' ->
+    listing_plain b (f_tasks (merge_all v g pi s)) = listing_plain b (f_tasks (merge_all v g pi' s'))
+    /\ listing_json b (f_tasks (merge_all v g pi s)) = listing_json b (f_tasks (merge_all v g pi' s')).
+Proof. exact listing_det. Qed.
+Print Assumptions C09_listing_det.
+
 (* the current tree (finding 7.14): two sibling includes defining the same variable; both orders are
    topological, the variable's value and the order of the task table differ *)
 Theorem C09_det_refuted :
